@@ -127,6 +127,27 @@ def body(run):
                               observed=dict(pixel=[r, cc], corrected=float(got[r, cc]), expected=float(exp[r, cc]), n_bad=int(bad_px.sum()), tolerance=tol),
                               signature=dict(kind='linear-recovery', model=model, nan=bool(np.isnan(got[r, cc])), grid='src'))
     run.cov['evaluations'] += ncorr
+    # ---- bands with different footprints, several blocks: every band recovers ITS relation wherever that band is valid
+    for k in range(run.scale(3, 12)):
+        model = ['gain-offset', 'gain-blk-offset'][k % 2]
+        bc = e2e.band_footprints_case(run.work, rng, model=model, tag='bf', threads=[1, 2][k % 2])
+        C = bc['res']['corr']['array']
+        run.count_case(('bf', k), True, bc['desc'] if k < 1 else None)
+        for b, (a, c) in enumerate(bc['coeffs']):
+            exp = a * bc['src'][b].astype('float64') + c
+            with np.errstate(invalid='ignore'):
+                bad = bc['valid'][b] & ~(np.abs(C[b].astype('float64') - exp) <= 2e-3 * (1 + np.abs(exp)))
+            if model == 'gain-offset':
+                # (fewer than two valid pixels in the window: no gain-offset solution, D13 - not this property's subject)
+                pad = np.pad(bc['valid'][b], 1)
+                cnt = sum(pad[i:i + bad.shape[0], j:j + bad.shape[1]].astype(int) for i in range(3) for j in range(3))
+                bad &= cnt >= 2
+            if bad.any():
+                r, c_ = (int(v) for v in np.argwhere(bad)[0])
+                run.add_violation('corrected image differs from a * source + b although the reference is exactly a * x + b', bc['desc'],
+                                  observed=dict(band=b + 1, pixel=[r, c_], corrected=float(C[b, r, c_]), expected=float(exp[r, c_]), n=int(bad.sum())),
+                                  signature=dict(kind='linear', model=model, grid='src'))
+                break
     run.cov['rule'] = ('real fusions where the reference is rewritten as a * x + b (x = the NaN-padded source down-sampled with the pipeline\'s own call), '
                        'per band (a, b), ratios {1, 1.7, 2, 2.5, 3, 4.3}, sub-pixel offsets, origins up to 7.6e6, holes / borders / islands, kernels incl. h != w, '
                        '1..40 blocks, threads {1, 3}, 3 up-sampling kernels: every valid source pixel must equal a * source + b to 2e-5 (1e-3 gain-offset) '
